@@ -4,6 +4,9 @@ that makes a case non-trivial, finding signatures, trusted-base notes."""
 # overlay file name (under harness/overlay) -> path under /repo it is mapped to
 OVERLAY = {
     "datapath_export_linux.go": "plugin/datapath/zz_verif_export_linux.go",
+    "daemon_export.go": "daemon/zz_verif_export.go",
+    "eni_export.go": "pkg/eni/zz_verif_export.go",
+    "ctlnode_export.go": "pkg/controller/node/zz_verif_export.go",
 }
 
 NOT_APPLICABLE = {}
@@ -27,6 +30,21 @@ PROPS = {
                       "extracted model on the same inputs and the proved checker on the implementation's output.",
         "level_note": "Trusted: Coq kernel, extraction (ExtrOcamlBasic), driver, harness. Modelled not verified: kernel u32 classifier "
                       "semantics, netlink serialisation. Name distinctness is partial: it needs collision-freeness of truncated SHA-1 (E7).",
+    },
+    "C19": {
+        "pkg": "./c19/", "test": "TestVerif_C19", "n_quick": 400, "n_thorough": 40000,
+        "rule": "limit vectors x configurations through daemon getPoolConfig, client.Limits methods, daemon checkInstance, and the daemon-side "
+                "Node CR reconciler followed by the controller's k8sAnno (fake API server). non-trivial = hypotheses of the property hold "
+                "(Adapters >= 1, per-adapter counts >= 0, shift <= 0) and some switch or clamp is exercised (non-zero configured sizes / a feature requested); "
+                "distinct = distinct input vectors",
+        "trusted": ["EniCapRatio fixed to its default 1 (the property's premise); int(float64(n)*1.0) = n for |n| < 2^53"],
+        "modelled": ["daemon/builder.go node-annotation split for ERDMA and patchNodeRes are not modelled (they need a live ENI factory); "
+                     "Node CR Spec.Pool copies the configured sizes unclamped and is not part of the watermark theorem"],
+        "assumptions": ["E10: instance limits are those of a real instance type (Adapters >= 1, per-adapter counts >= 0)"],
+        "level_text": "Theorems for all limit vectors and configurations (ratio 1): slots <= attachable secondaries, capacity = slots x IPv4PerAdapter, "
+                      "0 <= min <= max <= capacity with no hypothesis on the configured sizes, member/ERDMA bounds, Node CR flavor sums to Adapters-1, "
+                      "controller annotation bound, unsupported features disabled. Tied by running the real functions and reconcilers.",
+        "level_note": "Trusted: Coq kernel, extraction, driver, harness with controller-runtime fake client. Not modelled: builder.go ERDMA annotation split, patchNodeRes.",
     },
 }
 
@@ -93,3 +111,26 @@ def dist_C14(cases):
         elif fn == "5": d["table"] += 1
         elif fn == "6": d["veth"] += 1
     return d
+
+
+# ---- C19 ---------------------------------------------------------------------
+def sig_C19(ins, outs):
+    fn = ins[0]
+    if fn == "1":
+        v = [int(x) for x in ins]
+        o = [int(x) for x in outs] if len(outs) == 8 else None
+        if o and (o[4] < 0 or o[5] < 0 or o[0] < 0 or o[3] < 0):
+            return "C19:poolconfig:negative-watermark-or-capacity"
+        return "C19:poolconfig"
+    return {"2": "C19:limits", "3": "C19:checkInstance", "4": "C19:nodecr"}.get(fn, "C19:?")
+
+
+def nt_C19(ins, outs):
+    v = [int(x) for x in ins]
+    if v[0] == 1:
+        return v[1] >= 1 and v[2] >= 0 and v[7] <= 0 and (v[5] or v[6] or v[8] or v[9])
+    if v[0] == 2:
+        return v[1] >= 1 and v[2] >= 0
+    if v[0] == 3:
+        return bool(v[7] or v[8] or v[9])
+    return True
